@@ -114,6 +114,10 @@ Additions for retrospective.py / data.py (reveal_plates, mask_screen, unmask_scr
                       in cfg["vars"] at T is `match x with Some v => let x := v in A | None => B end`: inside A, x has type T.
                       Variables both branches leave bound must end them at the same type (refused otherwise), which is their
                       type afterwards - so an Optional argument that every path replaces by a value is a T after the `if`.
+Additions for data.py (Screen / ExperimentSpace save_h5, load_h5, from_screen):
+  cfg["with_return"]  True: `return e` inside a `with E as x:` block over a declared context (not inside a loop) is the
+                      function's return: e is evaluated while the context is open, __exit__ runs afterwards and - as
+                      cfg["contexts"] already trusts - changes no value (closing a file).  Without the flag it is refused.
 """
 import ast
 
@@ -901,7 +905,7 @@ class Tr:
             return self.block([self.match_to_if(st)] + rest, env, k, ind)
         if isinstance(st, ast.With):
             x, ctx = self.with_item(st)
-            if self.has_jump(st.body, (ast.Continue, ast.Return)):
+            if self.has_jump(st.body, (ast.Continue,) if self.cfg.get("with_return") else (ast.Continue, ast.Return)):
                 raise Unsupported("continue/return inside a with block")
             tmpl, ty, binds, argtys = ctx
             if self.var_type(x) != ty:
